@@ -67,3 +67,14 @@ Definition run_pratt (l : list Z) : list Z :=
       | NoFuel => [4]
       end
     end.
+
+(* ---- the statement model (StmtModel.v) ------------------------------------------------------------------------------- *)
+From Verif Require Import JsExpr.StmtModel.
+
+(* case: mode(=0) opts ntok tokens...  ->  0 n (|String()| String())*  for the statements of the program, or the error code;
+   opts bit 0 is Options.WhileToFor *)
+Definition run_xstmt (l : list Z) : list Z :=
+  let opts := hdz (tlz l) in
+  let n := hdz (tlz (tlz l)) in
+  let ts := decode_toks (Z.to_nat n) (tlz (tlz (tlz l))) in
+  enc_res (fun p => len p :: concat (map (fun s => enc_bytes (show_xstmt s)) p)) (parse_xprogram (Z.odd opts) ts).
